@@ -55,6 +55,6 @@ int main(int argc, char *argv[]) {
       util::Normalize(*cur, *tmp);
       std::swap(cur, tmp);
     }
-    std::cout << *str << '\n';
+    std::cout << *cur << '\n';
   }
 }
